@@ -48,7 +48,15 @@ class CompileMapper(StringifyMapper):
             elif isinstance(expr, numpy.bool_):
                 expr = bool(expr)
 
-        return repr(expr)
+        result = repr(expr)
+
+        # as in StringifyMapper.map_constant: '-2**x' is not (-2)**x
+        if not (result.startswith("(") and result.endswith(")")) \
+                and ("-" in result or "+" in result) \
+                and (enclosing_prec > PREC_SUM):
+            return self.parenthesize(result)
+        else:
+            return result
 
     def map_polynomial(self, expr, enclosing_prec):
         # Use Horner's scheme to evaluate the polynomial
